@@ -42,6 +42,42 @@ pub struct SeqCase {
     pub observe_each: bool,
     /// restrict a sweep to one fork index (replay/shrinking aid)
     pub only_fork: Option<usize>,
+    /// sweep only crash points inside operations with this index or later
+    /// (long histories: the early part only builds the population)
+    #[serde(default)]
+    pub sweep_from: usize,
+}
+
+/// A long run of successful adds that carries the id allocator up to and just
+/// across a multiple of its durable-watermark stride (64), then a short tail;
+/// only the part around the boundary is crash-swept.
+fn gen_ops_watermark(rng: &mut Rng) -> (Vec<DOp>, usize) {
+    let m = if rng.chance(1, 4) { 2 } else { 1 };
+    let k = (64 * m + m + rng.range(0, 5) - 3) as usize; // 62..=67 / 127..=132
+    let mut ops = Vec::with_capacity(k + 4);
+    for i in 0..k {
+        let mut spec = DocSpec::generate(rng);
+        spec.name = 10 + i as u8; // distinct: every add succeeds and owns its id
+        ops.push(DOp::Add(spec));
+    }
+    if rng.bool() {
+        let at = rng.range(1, k as u64 - 1) as usize;
+        ops.insert(at, DOp::Flush);
+    }
+    let from = ops.len().saturating_sub(5);
+    for _ in 0..rng.below(3) {
+        ops.push(match rng.below(4) {
+            0 => DOp::Flush,
+            1 => DOp::Remove { id: k as u64 - rng.below(2) },
+            2 => DOp::Reopen,
+            _ => {
+                let mut spec = DocSpec::generate(rng);
+                spec.name = 200 + rng.below(20) as u8;
+                DOp::Add(spec)
+            }
+        });
+    }
+    (ops, from)
 }
 
 pub fn gen_ops(rng: &mut Rng, n: usize, conflict_bias: bool) -> Vec<DOp> {
@@ -129,16 +165,13 @@ pub fn generate_seq(case_seed: u64, idx: u64, tier: Tier, flavor: &str) -> SeqCa
         }
         _ => SeqMode::Plain,
     };
-    SeqCase {
-        seed: case_seed,
-        knobs,
-        ops,
-        clock,
-        mode,
-        reboot_delta: *rng.pick(&[0i64, 1, 1000, -1000, 100_000]),
-        observe_each: flavor != "c01" || rng.chance(1, 4),
-        only_fork: None,
+    let reboot_delta = *rng.pick(&[0i64, 1, 1000, -1000, 100_000]);
+    let observe_each = flavor != "c01" || rng.chance(1, 4);
+    if flavor == "c01" && matches!(mode, SeqMode::Sweep { .. }) && rng.chance(1, 12) {
+        let (ops, sweep_from) = gen_ops_watermark(&mut rng);
+        return SeqCase { seed: case_seed, knobs, ops, clock, mode: SeqMode::Sweep { nested_stride: 0 }, reboot_delta, observe_each: false, only_fork: None, sweep_from };
     }
+    SeqCase { seed: case_seed, knobs, ops, clock, mode, reboot_delta, observe_each, only_fork: None, sweep_from: 0 }
 }
 
 /// Harness-owned observation: the fault plan is suspended while it runs.
@@ -236,6 +269,9 @@ pub fn run_seq(case: &SeqCase, rep: &mut RunReport) -> Result<(), Violation> {
         };
         let f0 = real_faults(&sim);
         let mlog0 = sim.mut_log_len();
+        if sweeping && case.sweep_from > 0 {
+            store.set_record_forks(i >= case.sweep_from);
+        }
         let out = block(world.exec(op));
         let faulted = real_faults(&sim) > f0;
         trace.add_str(&format!("{out:?}"));
@@ -458,6 +494,9 @@ pub fn run_seq(case: &SeqCase, rep: &mut RunReport) -> Result<(), Violation> {
                     continue;
                 }
             }
+            if case.sweep_from > 0 && (f.marker as usize) < case.sweep_from + 1 {
+                continue;
+            }
             let (k, creation_acked) = if f.marker == 0 { (0usize, false) } else { (f.marker as usize - 1, true) };
             let ctx = format!(
                 "crash before backend mutation #{} ({} {}) {}",
@@ -516,6 +555,9 @@ pub fn run_seq(case: &SeqCase, rep: &mut RunReport) -> Result<(), Violation> {
     let _ = creation_mutations;
     rep.evaluations = evals;
     rep.nontrivial_sigs = sigs;
+    if case.sweep_from > 0 {
+        rep.probe("allocation_watermark_boundary_histories", 1);
+    }
     merge_log_probes(rep);
     rep.sample = Some(serde_json::json!({
         "knobs": format!("{:?}", case.knobs), "mode": format!("{:?}", case.mode), "clock": format!("{:?}", case.clock),
